@@ -249,11 +249,10 @@ def run_driver(binary, driver, args, outdir, timeout=1200):
     try:
         p = sh(cmd, timeout=timeout, check=False)
     except subprocess.TimeoutExpired as te:
-        # a hang of the library under test is data as well: treat like a kill
-        class _P:
-            returncode = -9
-            stdout = "TIMEOUT after %ss (hang)" % timeout
-        p = _P()
+        # A hang of the library under test is data: the harness has a watchdog of its own that
+        # aborts the process after 300 s without an event (-> `abort` event below).  A driver that
+        # keeps emitting events but exceeds the outer limit is merely slow: a tool error.
+        raise ToolError("driver exceeded its time limit of %ss (still emitting events): %s" % (timeout, " ".join(cmd)))
     aborted = None
     if p.returncode < 0 or p.returncode == 101:
         # the library under test killed the process (abort, or a panic that
